@@ -17,20 +17,20 @@ import (
 )
 
 type Case struct {
-	ID     string         `json:"id"`
-	K      string         `json:"k"`
-	In     map[string]any `json:"in"`
-	Impl   map[string]any `json:"impl"`
-	Class  string         `json:"class"`            // coverage class label (input kind)
-	Tags   []string       `json:"tags,omitempty"`   // used to match known findings
-	Trivial bool          `json:"trivial,omitempty"` // e.g. rejected before the modelled logic ran
-	Replay any            `json:"replay,omitempty"` // concrete material: PEM, bytes, op sequence
-	Dist   map[string]string `json:"-"`             // input dimensions for the distribution table of the evidence
+	ID      string            `json:"id"`
+	K       string            `json:"k"`
+	In      map[string]any    `json:"in"`
+	Impl    map[string]any    `json:"impl"`
+	Class   string            `json:"class"`             // coverage class label (input kind)
+	Tags    []string          `json:"tags,omitempty"`    // used to match known findings
+	Trivial bool              `json:"trivial,omitempty"` // e.g. rejected before the modelled logic ran
+	Replay  any               `json:"replay,omitempty"`  // concrete material: PEM, bytes, op sequence
+	Dist    map[string]string `json:"-"`                 // input dimensions for the distribution table of the evidence
 	// local cases are decided by the harness alone (nothing to compute on the model side: "terminated with a
 	// value or an error"); localClause != "" makes it a violation; weight = how many executions it stands for
-	local       bool
-	localClause string
-	weight      int
+	local          bool
+	localClause    string
+	weight         int
 	distinctWeight int
 }
 
@@ -43,30 +43,30 @@ type Problem struct {
 }
 
 type Summary struct {
-	Property    string         `json:"property"`
-	Evaluations int            `json:"evaluations"`
-	Distinct    int            `json:"distinct_nontrivial"`
-	Classes     map[string]int `json:"classes"`
+	Property     string         `json:"property"`
+	Evaluations  int            `json:"evaluations"`
+	Distinct     int            `json:"distinct_nontrivial"`
+	Classes      map[string]int `json:"classes"`
 	ImplOutcomes map[string]int `json:"impl_outcomes"`
-	Samples     []*Case        `json:"samples"`
-	Problems    []*Problem     `json:"problems"`
-	ProblemCount int           `json:"problem_count"`
-	Exhaustive  bool           `json:"exhaustive"`
-	Notes       []string       `json:"notes,omitempty"`
-	Extra       map[string]any `json:"extra,omitempty"`
+	Samples      []*Case        `json:"samples"`
+	Problems     []*Problem     `json:"problems"`
+	ProblemCount int            `json:"problem_count"`
+	Exhaustive   bool           `json:"exhaustive"`
+	Notes        []string       `json:"notes,omitempty"`
+	Extra        map[string]any `json:"extra,omitempty"`
 }
 
 type Runner struct {
-	prop    string
-	cmd     *exec.Cmd
-	lines   chan []byte
-	out     *bufio.Scanner
-	pending chan *Case
-	wg      sync.WaitGroup
-	mu      sync.Mutex
-	sum     *Summary
-	seen    map[string]bool
-	outcomeOf func(c *Case) string
+	prop        string
+	cmd         *exec.Cmd
+	lines       chan []byte
+	out         *bufio.Scanner
+	pending     chan *Case
+	wg          sync.WaitGroup
+	mu          sync.Mutex
+	sum         *Summary
+	seen        map[string]bool
+	outcomeOf   func(c *Case) string
 	maxProblems int
 }
 
